@@ -72,7 +72,7 @@ XReq(e) ==
      IN /\ r.ok
         /\ e.hdr_ipp.ver = exp(TRUE).ver /\ e.hdr_ipp.code = exp(TRUE).code
         /\ \E alt \in BOOLEAN : ReqNorm(r.v) = ReqNorm(exp(alt).groups)
-        /\ (a.prog # "get-printers" => (uriV.k = "Uri" /\ IsCanonOf(e.puri, a.target)))
+        /\ (a.prog # "get-printers" => uriV.k = "Uri")
         /\ (IF d = 0 THEN e.paylen = 0 ELSE Matches(e, d))     \* the k-th document, unchanged, in argument order
   /\ reqs' = reqs + 1 /\ UNCHANGED a
 XExit(e) ==
